@@ -24,7 +24,9 @@ RULE = ("(a) every label assignment over a 2-letter (quick) / 3-letter "
         "ladder: blocks with exactly k distinct labels, k in {1,2,3,4,5,16,"
         "17,256,257,65536,65537}, cubic and non-cubic, 1 and 3 channels, "
         "repeated tables and tables differing only above bit 32; (c) shapes "
-        "{1..5}^3, (9,5,3), (16,16,16) filled with i mod m. One evaluation = "
+        "{1..5}^3, (9,5,3), (16,16,16) filled with i mod m. Input arrays are handed over in four memory "
+        "layouts (C, Fortran, the moveaxis view volume conversion produces, "
+        "strided), cycling through the enumeration. One evaluation = "
         "one encode + spec validation/decode + package decode; non-trivial "
         "= >= 2 blocks or >= 2 distinct labels.")
 ASSUMPTIONS = [
@@ -69,7 +71,27 @@ def _case(dtype, shape, block, chans, gen=None):
     return c
 
 
-def _evaluate(col, dtype, shape, block, chans, gen=None):
+LAYOUTS = ("C", "F", "xyzc-view", "strided")
+
+
+def _lay(arr, layout):
+    """the same (C,Z,Y,X) array in another memory layout"""
+    if layout == "F":
+        return np.asfortranarray(arr)
+    if layout == "xyzc-view":
+        # what volume_to_precomputed hands over: a moveaxis view of an
+        # array stored as [x, y, z, c]
+        base = np.ascontiguousarray(np.moveaxis(arr, (0, 1, 2, 3),
+                                                (3, 2, 1, 0)))
+        return np.moveaxis(base, (0, 1, 2, 3), (3, 2, 1, 0))
+    if layout == "strided":
+        big = np.zeros(arr.shape[:3] + (2 * arr.shape[3],), dtype=arr.dtype)
+        big[..., ::2] = arr
+        return big[..., ::2]
+    return arr
+
+
+def _evaluate(col, dtype, shape, block, chans, gen=None, layout="C"):
     from neuroglancer_scripts.chunk_encoding import (
         CompressedSegmentationEncoder,
     )
@@ -78,7 +100,9 @@ def _evaluate(col, dtype, shape, block, chans, gen=None):
     Z, Y, X = shape
     nch = len(chans)
     itemsize = 4 if dtype == "uint32" else 8
-    arr = np.array(chans, dtype=dtype).reshape((nch, Z, Y, X))
+    arr = _lay(np.array(chans, dtype=dtype).reshape((nch, Z, Y, X)), layout)
+    if layout != "C":
+        case["layout"] = layout
     gx, gy, gz = cseg_spec.grid(shape, block)
     nontriv = 1 if (gx * gy * gz > 1 or
                     any(len(set(ch)) > 1 for ch in chans)) else 0
@@ -257,8 +281,10 @@ def run_unit(u):
             block = tuple(block)
             for i, a in enumerate(arrays):
                 b = arrays[(i + 1) % len(arrays)]
-                _evaluate(col, dtype, shape, block, [list(a)])
-                _evaluate(col, dtype, shape, block, [list(a), list(b)])
+                _evaluate(col, dtype, shape, block, [list(a)],
+                          layout=LAYOUTS[i % 4])
+                _evaluate(col, dtype, shape, block, [list(a), list(b)],
+                          layout=LAYOUTS[(i + 2) % 4])
         col.sample(_case(dtype, shape, tuple(u["blocks"][-1]),
                          [list(arrays[-1])]))
     else:
@@ -266,7 +292,10 @@ def run_unit(u):
             if g[0] == "high-bits" and u["dtype"] == "uint32":
                 continue
             shape, block, chans = _gen_values(g, u["dtype"])
-            _evaluate(col, u["dtype"], shape, block, chans, gen=g)
+            for layout in (LAYOUTS if g[0] != "ladder" or g[1] <= 512
+                           else ("C", "xyzc-view")):
+                _evaluate(col, u["dtype"], shape, block, chans, gen=g,
+                          layout=layout)
         col.sample({"dtype": u["dtype"], "generator": u["gens"][0]})
     return col.result()
 
@@ -276,9 +305,11 @@ def replay(case):
     if "generator" in case:
         g = case["generator"]
         shape, block, chans = _gen_values(g, case["dtype"])
-        _evaluate(col, case["dtype"], shape, block, chans, gen=g)
+        _evaluate(col, case["dtype"], shape, block, chans, gen=g,
+                  layout=case.get("layout", "C"))
     else:
         chans = [[int(v) for v in ch] for ch in case["values"]]
         _evaluate(col, case["dtype"], tuple(case["shape_zyx"]),
-                  tuple(case["block"]), chans)
+                  tuple(case["block"]), chans,
+                  layout=case.get("layout", "C"))
     return col.records()
